@@ -101,6 +101,7 @@ class Interp:
         self.sym = symbolic
         self.env = env
         self.exact = exact      # float literals as the Fractions they are (shadow run)
+        self.saw_float = False
         self.n_ops = 0
         self.reflected = False
 
@@ -108,6 +109,12 @@ class Interp:
         return p.Variable(name) if self.sym else self.env[name]
 
     def run(self, pr):
+        v = self._run(pr)
+        if isinstance(v, (float, complex, np.floating, np.complexfloating)):
+            self.saw_float = True       # some intermediate value is inexact
+        return v
+
+    def _run(self, pr):
         tag = pr[0]
         if tag == "v":
             return self.leaf(pr[1])
@@ -380,8 +387,9 @@ def compare_envs(res, prog, tree, env_specs, exact_mode=False):
     for env_spec in env_specs:
         env = envs.build_env(env_spec)
         env.setdefault("abs", abs)
+        plain = Interp(False, env)
         try:
-            v = Interp(False, env).run(prog)
+            v = plain.run(prog)
         except RefSkip:
             continue
         except HarnessError:
@@ -417,7 +425,7 @@ def compare_envs(res, prog, tree, env_specs, exact_mode=False):
             break
         if not agree(ref[1], v) and (
                 (isinstance(v, float) and _ill_conditioned(prog, env, v))
-                or (isinstance(v, (bool, int)) and _has_float_literal(prog))):
+                or (isinstance(v, (bool, int)) and plain.saw_float)):
             # (a truth value / integer computed through inexact floats - a comparison, a
             # truth test, a floor - is decided by rounding noise once the operands cancel;
             # an irrational power makes even the rational shadow run inexact)
